@@ -87,6 +87,21 @@ def run(tier, seed):
         if not ok:
             v.violation("trans_orientation(forward, o=%s, shape %dx%d) does not store pixel (x,y) at the (dety,detz) "
                         "index the orientation matrix prescribes" % (list(o), W, H), desc)
+        # distort() = xy_to_detyz o spatial.distort o detyz_to_xy : with the identity distortion it must be the identity
+        class _Ident(object):
+            def distort(self, a, b):
+                return (a, b)
+        for (xy, yz) in x["qmap"]:
+            fy = [yz[0] / 4.0, yz[1] / 4.0]
+            try:
+                d = detector.distort(fy, o[0], o[1], o[2], o[3], H, W, _Ident())
+            except Exception as ex:
+                v.violation("distort raised %r for valid orientation %s" % (ex, list(o)), desc)
+                break
+            if [float(d[0]), float(d[1])] != fy:
+                v.violation("distort with the identity distortion moves (dety,detz) = %s to %s (o=%s, %dx%d)" %
+                            (fy, [float(d[0]), float(d[1])], list(o), W, H), desc)
+                break
         for (xy, yz) in x["qmap"]:
             fx = [xy[0] / 4.0, xy[1] / 4.0]
             fy = [yz[0] / 4.0, yz[1] / 4.0]
